@@ -144,10 +144,148 @@ class WorldGen:
                 L.append("sub|0|i%d|%d|%d %d" % (b, p0, v[0], v[1]))
                 live.append(("sub", 0, ("i%d" % b,), p0, nm0, v))
             live.append(("reg", 0, ("i%d" % i,), p0, nm0, (0, 0)))
+        carry = []
+
+        def emit(hot, line):
+            """the mutation bracketed by the same queries before and after; with probability `quiet` the queries after
+            it are postponed until after the *next* mutation (two mutations with no lookup in between)"""
+            if not carry:
+                L.extend(hot)
+            L.append(line)
+            if rnd.random() < P.get("quiet", 0.15) and len(carry) < 12:
+                carry.extend(hot)
+                return False
+            L.extend(hot)
+            L.extend(carry)
+            del carry[:]
+            return True
+
+        st = dict(nr=nr)
+
+        def scen_hit():
+            """a lookup that HITS, then a change of the required specification (not of the registry) after which another
+            registration must win, then the same lookup — nothing else through that lookup object in between"""
+            r = rnd.randrange(st["nr"])
+            p, nm = rnd.choice(PROV), rnd.choice(NAMES)
+            a, b = rnd.sample(range(1, n + 1), 2) if n >= 2 else (1, 1)
+            rest = ["i%d" % rnd.randint(1, n)] if rnd.random() < 0.35 else []
+            pos = rnd.randint(0, len(rest))
+            v1, v2 = val(), val()
+
+            def at(t):
+                ts = rest[:]
+                ts.insert(pos, t)
+                return ts
+            lines = []
+            for x, v in ((a, v1), (b, v2)):
+                lines.append("reg|%d|%s|%d|%s|%d %d" % (r, " ".join(at("i%d" % x)), p, nm, v[0], v[1]))
+                live.append(("reg", r, tuple(at("i%d" % x)), p, nm, v))
+            ys = [y for y in range(1, n + 1) if y not in fixed and y not in (a, b) and y not in c03.reach(ib, a) and y not in c03.reach(ib, b)]
+            if ys and rnd.random() < 0.4:
+                y = rnd.choice(ys)
+                down = {jj for jj in range(1, n + 1) if y in c03.reach(ib, jj)}
+                b1, b2_ = dict(ib), dict(ib)
+                b1[y], b2_[y] = [a], [b]
+                if (a in down or b in down or not all(c03.cpython_mirror_mro(b1, jj) is not None for jj in down)
+                        or not all(c03.cpython_mirror_mro(b2_, jj) is not None for jj in down)):
+                    return
+                ib[y] = [b]
+                tok = "i%d" % rnd.choice(sorted(down))
+                first, change = "isetbases|%d|%d" % (y, a), "isetbases|%d|%d" % (y, b)
+            else:
+                c = rnd.choice(list(cb))
+                os2 = [o for o in objs if objs[o] == c]
+                tok = "o%d" % rnd.choice(os2) if os2 and rnd.random() < 0.75 else "c%d" % c
+                first, change = "only|%d|%d" % (c, a), rnd.choice(["first|%d|%d", "only|%d|%d"]) % (c, b)
+            ts = " ".join(at(tok))
+            kinds_ = ["lookup|%d|%s|%d|%s" % (r, ts, p, nm)]
+            if not rest:
+                kinds_.append("lookup1|%d|%s|%d|%s" % (r, ts, p, nm))
+            if tok[0] == "o" and not rest:
+                kinds_ += ["qadapter|%d|%s|%d|%s|%s" % (r, ts, p, nm, v) for v in "qhm"]
+            q = rnd.choice(kinds_)
+            lines += [first, q]
+            if rnd.random() < 0.3:
+                lines.append(q)
+            lines += [change, q, "lookupAll|%d|%s|%d" % (r, ts, p)]
+            L.extend(lines)
+
+        def scen_rbases_spec():
+            """a registry answers a lookup for R; a registry above it is re-based; R changes; the same lookup again —
+            with no lookup between the last two changes"""
+            cand = [y for y in range(1, n + 1) if y not in fixed]
+            if not cand:
+                return
+            y = rnd.choice(cand)
+            mid = rnd.randrange(st["nr"])
+            other, low = st["nr"], st["nr"] + 1
+            depth = rnd.random() < 0.4
+            st["nr"] += 2 + depth
+            p, nm = rnd.choice(PROV), rnd.choice(NAMES)
+            v = val()
+            L.append("newreg|%d|" % other)
+            if depth:
+                L.append("newreg|%d|%d" % (low + 1, mid))
+                L.append("newreg|%d|%d" % (low, low + 1))
+                rb[low + 1], rb[low] = [mid], [low + 1]
+            else:
+                L.append("newreg|%d|%d" % (low, mid))
+                rb[low] = [mid]
+            rb[other] = []
+            L.append("reg|%d|i%d|%d|%s|%d %d" % (other, y, p, nm, v[0], v[1]))
+            live.append(("reg", other, ("i%d" % y,), p, nm, v))
+            q = rnd.choice(["lookup|%d|i%d|%d|%s" % (low, y, p, nm), "lookupAll|%d|i%d|%d" % (low, y, p), "lookup1|%d|i%d|%d|%s" % (low, y, p, nm)])
+            L.append(q)
+            rb[mid] = rb[mid] + [other]
+            L.append("rbases|%d|%s" % (mid, " ".join(map(str, rb[mid]))))
+            if rnd.random() < 0.85:
+                L.append("isetbases|%d|%s" % (y, " ".join(str(b) for b in ib[y] if b)))     # same bases: still a change notification
+            L.append(q)
+            L.append("lookup|%d|i%d|%d|%s" % (low, y, p, nm))
+
+        def scen_rebuild():
+            """a base registry is rebuilt and then mutated a chosen number of times with no lookup on the registry below"""
+            base = rnd.randrange(st["nr"])
+            sub_ = st["nr"]
+            st["nr"] += 1
+            rb[sub_] = [base]
+            L.append("newreg|%d|%d" % (sub_, base))
+            p = rnd.choice(PROV)
+            use_subs = rnd.random() < 0.4
+            L.append("rebuild|%d" % base)
+            k = rnd.choice([1, 1, 2, 3])
+            y = rnd.randint(1, n)
+            for _ in range(k):
+                v = val()
+                if use_subs:
+                    L.append("sub|%d|i%d|%d|%d %d" % (base, y, p, v[0], v[1]))
+                    L.append("unsub|%d|i%d|%d|0 %d" % (base, y, p, v[1]))
+                else:
+                    L.append("reg|%d|i%d|%d|zz|%d %d" % (base, y, p, v[0], v[1]))
+                    L.append("unreg|%d|i%d|%d|zz" % (base, y, p))
+            q = ("subs|%d|i%d|%d" % (sub_, y, p)) if use_subs else ("lookupAll|%d|i%d|%d" % (sub_, y, p))
+            L.append(q)
+            L.append("rebuild|%d" % base)
+            for j in range(rnd.choice([2 * k, 2 * k, 2 * k, 2 * k - 1, 2 * k + 1, k])):
+                v = val()
+                if use_subs:
+                    L.append("sub|%d|i%d|%d|%d %d" % (base, y, p, v[0], v[1]))
+                    live.append(("sub", base, ("i%d" % y,), p, "", v))
+                else:
+                    L.append("reg|%d|i%d|%d|n%d|%d %d" % (base, y, p, j, v[0], v[1]))
+                    live.append(("reg", base, ("i%d" % y,), p, "n%d" % j, v))
+            L.append(q)
+
+        scen = [(scen_hit, P.get("scen_hit", 0.05)), (scen_rbases_spec, P.get("scen_rbases", 0.03)), (scen_rebuild, P.get("scen_rebuild", 0.03))]
         nsteps = rnd.randint(*(P.get("steps_big", (10, 40)) if big else P.get("steps", (6, 26))))
         W = P["weights"]       # reg unreg sub unsub isetbases classdecl objdecl rbases rebuild
         kinds = ["reg", "unreg", "sub", "unsub", "isetbases", "classdecl", "objdecl", "rbases", "rebuild"]
         for step in range(nsteps):
+            if not carry:
+                for fn, pr in scen:
+                    if rnd.random() < pr:
+                        fn()
+            nr = st["nr"]
             k = rnd.choices(kinds, weights=W)[0]
             r = rnd.randrange(nr)
             ar = rnd.choice(P.get("arity", [1, 1, 1, 2, 2]))
@@ -224,9 +362,7 @@ class WorldGen:
                     t2[j] = "i%d" % rnd.choice(sorted(down))
                     hot = hot_for(t2, x[3], x[4], keep=True, affected=j)
                     line = "isetbases|%d|%s" % (i, " ".join(map(str, bs)))
-                    L.extend(hot)
-                    L.append(line)
-                    L.extend(hot)
+                    emit(hot, line)
                     continue
                 i = rnd.choice(cand)
                 m2 = [j for j in cand if len([b for b in ib[j] if b]) >= 2]
@@ -266,9 +402,7 @@ class WorldGen:
                     t2[j] = "o%d" % rnd.choice(os2) if os2 and rnd.random() < 0.7 else "c%d" % c
                     hot = hot_for(t2, x[3], x[4], keep=True, affected=j)
                     line = "%s|%d|%d" % (rnd.choice(["add", "add", "only", "first"]), c, kk)
-                    L.extend(hot)
-                    L.append(line)
-                    L.extend(hot)
+                    emit(hot, line)
                     continue
                 os_ = [o for o in objs if c in [inv_cls[x] for x in pycls[objs[o]].__mro__[:-1]]]
                 if os_:
@@ -297,9 +431,8 @@ class WorldGen:
                 line = "rbases|%d|%s" % (r, " ".join(map(str, bs)))
             elif k == "rebuild":
                 line = "rebuild|%d" % r
-            L.extend(hot)
-            L.append(line)
-            L.extend(hot)
+            if not emit(hot, line):
+                continue
             for _ in range(P.get("extra", 2)):
                 t3 = [keytok() for _ in range(rnd.choice([1, 1, 2]))]
                 if live and rnd.random() < 0.6:
@@ -310,6 +443,7 @@ class WorldGen:
                 L.extend(queries(rnd.randrange(nr), t3, rnd.choice(PROV), rnd.choice(NAMES))[:2])
             for _ in range(P.get("provq", 1)):
                 L.append("prov|%s" % keytok(P.get("provkinds")))
+        L.extend(carry)
         return L
 
 
@@ -340,3 +474,60 @@ def twin_stream(prop, profile, nscripts, ops):
                         break
         return fails
     return run
+
+
+STALE_PROFILE = dict(weights=[1, 0.2, 0.3, 0.1, 3, 5, 1.5, 0.1, 0], nregs=(1, 2), extra=1, provq=4, arity=[1, 2], nclasses=(2, 5),
+                     keyweights=(0.15, 0.25, 0.3, 0.3), provkinds=(0.15, 0.35, 0.25, 0.25), superobj=0.5, scen_hit=0.02, scen_rbases=0, scen_rebuild=0)
+
+
+def stale_stream(prop, markers, nscripts, what):
+    """-> (fails, counters): histories of class / instance declaration calls and interface re-basing interleaved with
+    lookups through super proxies; after every step the executor compares, for class, instance and super-proxy
+    specifications, the cached views with what the current __bases__ links and iteration give (markers = which views)"""
+    from .. import core, runner
+
+    def run(chk, tier):
+        rnd = core.rng(prop, 11)
+        gen = WorldGen(rnd, tier, STALE_PROFILE)
+        scripts = [gen.script(0) for i in range(nscripts[tier])]
+        lines = [l for s in scripts for l in s]
+        res = runner.run_impl_parallel("world", lines, [("c", ["stale"]), ("py", ["stale"])])
+        fails = []
+        for m, out in zip(("c", "py"), res):
+            if isinstance(out, core.ImplBroken):
+                fails.append(dict(mode=m, script=[], message="world stream could not be executed: %s" % str(out)[-300:], observed="", layer="world"))
+                continue
+            chk.count("world_stream_lines_%s" % m, len(lines))
+            for i, (l, o) in enumerate(zip(lines, out)):
+                if l.startswith("prov|"):
+                    if m == "c":
+                        chk.count("world_stream_specifications_checked")
+                        chk.count("world_stream_kind_" + l[5])
+                    if any(k in o for k in markers) or o.startswith("err"):
+                        s, e = runner.script_of(lines, i)
+                        fails.append(dict(mode=m, script=lines[s:e], message="after declaration / hierarchy changes, %s of %s: %s" % (what, l[5:], o), observed=o, layer="world",
+                                          executor_args=["stale"]))
+                        break
+        return fails
+    return run
+
+
+def report_world(chk, fails_world):
+    """record the first world-stream failure as a violation (the replay names the layer and the executor arguments)"""
+    for f in fails_world[:1]:
+        chk.violation("%s [mode=%s]" % (f["message"], f["mode"]),
+                      dict(kind="history", mode=f["mode"], script=f["script"], observed=f["observed"], expected_by="spec", minimised=False,
+                           layer="world", executor_args=f.get("executor_args", ["twin"])))
+
+
+def replay_world(prop, rep, path):
+    from .. import core
+    script, mode, args = rep["script"], rep.get("mode", "c"), rep.get("executor_args", ["twin"])
+    out = core.run_impl("world", script, mode, args)
+    for l, o in zip(script, out):
+        print("%-44s impl: %s" % (l, o))
+    if any(("-STALE" in o or "TWIN-DIFF" in o or o.startswith("err")) for o in out):
+        print("VIOLATION property=%s replay=%s" % (prop, path))
+        return 1
+    print("replay passes on the current tree")
+    return 0
